@@ -22,9 +22,13 @@ Proof. exact resumes_at_low. Qed.
 Theorem C18_write_interest : forall (l : loop) (outlen outlen' high low : N), loop_inv l outlen -> let '(l', _) := loop_tail l (negb (outlen =? 0)) outlen' high low in loop_inv l' outlen'.
 Proof. exact write_interest. Qed.
 
-(* LOSES NOTHING: messages parked in a mailbox while throttled are taken in order, whole, when polling resumes *)
-Theorem C18_mailbox_fifo : forall (n : N) (bufs : list bytes) (fuel : nat) (c : core) (s : slot), n <> 0 -> alookup n (c_slots c) = Some s -> s_mail s = map MsgSend bufs -> s_mail_tx s = true -> ob_sealed (c_out c) = false -> (length bufs < fuel)%nat -> exists c' : core, chan_readable fuel n c = (OOk, c') /\ ob (c_out c') = ob (c_out c) ++ concat bufs /\ ob_sealed (c_out c') = false /\ c_phase c' = c_phase c /\ c_qs c' = c_qs c /\ (forall k : N, k <> n -> alookup k (c_slots c') = alookup k (c_slots c)) /\ (exists s' : slot, alookup n (c_slots c') = Some s' /\ s_mail s' = []).
+(* a channel's mailbox is taken from in FIFO order, each buffer appended whole; what is not taken (the loop stops as soon as it finds the out-buffer above the high-water mark) stays in the mailbox, in order, and a re-poll of the channels is owed - nothing is lost or reordered across throttling *)
+Theorem C18_mailbox_fifo : forall (n : N) (bufs : list bytes) (fuel : nat) (c : core) (s : slot), n <> 0 -> alookup n (c_slots c) = Some s -> s_mail s = map MsgSend bufs -> s_mail_tx s = true -> ob_sealed (c_out c) = false -> (length bufs < fuel)%nat -> exists (c' : core) (taken rest : list bytes), chan_readable fuel n c = (OOk, c') /\ bufs = taken ++ rest /\ ob (c_out c') = ob (c_out c) ++ concat taken /\ ob_sealed (c_out c') = false /\ c_phase c' = c_phase c /\ c_qs c' = c_qs c /\ c_high c' = c_high c /\ (forall k : N, k <> n -> alookup k (c_slots c') = alookup k (c_slots c)) /\ (exists s' : slot, alookup n (c_slots c') = Some s' /\ s_mail s' = map MsgSend rest) /\ (rest <> [] -> c_need c' = true /\ c_high c < out_len c').
 Proof. exact mailbox_fifo. Qed.
+
+(* ... and below the mark nothing is left behind: if even with everything appended the out-buffer does not exceed the high-water mark, the whole mailbox is taken in that one wake-up *)
+Theorem C18_mailbox_fifo_below_mark : forall (n : N) (bufs : list bytes) (fuel : nat) (c : core) (s : slot), n <> 0 -> alookup n (c_slots c) = Some s -> s_mail s = map MsgSend bufs -> s_mail_tx s = true -> ob_sealed (c_out c) = false -> (length bufs < fuel)%nat -> N.of_nat (length (ob (c_out c) ++ concat bufs)) <= c_high c -> exists c' : core, chan_readable fuel n c = (OOk, c') /\ ob (c_out c') = ob (c_out c) ++ concat bufs /\ (exists s' : slot, alookup n (c_slots c') = Some s' /\ s_mail s' = []).
+Proof. exact mailbox_fifo_below_mark. Qed.
 
 (* ... and what is buffered reaches the wire once, in order, across any number of stalls *)
 Theorem C18_trace_conserves : forall (ops : list bop) (st : list N * outbuf * list N), (let '(wire, b, acc) := st in wire ++ ob b = acc) -> (fix ok (st0 : bytes * outbuf * bytes) (ops0 : list bop) {struct ops0} : Prop := match ops0 with | [] => True | o :: ops' => no_write_failure st0 o /\ ok (bstep st0 o) ops' end) st ops -> let '(wire', b', acc') := fold_left bstep ops st in wire' ++ ob b' = acc'.
@@ -93,7 +97,8 @@ Check C18_throttles_above_high : forall (l : loop) (had : bool) (outlen high low
 Check C18_stays_throttled : forall (l : loop) (had : bool) (outlen high low : N), l_listening l = false -> low < outlen -> l_listening (fst (loop_tail l had outlen high low)) = false.
 Check C18_resumes_at_low : forall (l : loop) (had : bool) (outlen high low : N), l_listening l = false -> outlen <= low -> l_listening (fst (loop_tail l had outlen high low)) = true.
 Check C18_write_interest : forall (l : loop) (outlen outlen' high low : N), loop_inv l outlen -> let '(l', _) := loop_tail l (negb (outlen =? 0)) outlen' high low in loop_inv l' outlen'.
-Check C18_mailbox_fifo : forall (n : N) (bufs : list bytes) (fuel : nat) (c : core) (s : slot), n <> 0 -> alookup n (c_slots c) = Some s -> s_mail s = map MsgSend bufs -> s_mail_tx s = true -> ob_sealed (c_out c) = false -> (length bufs < fuel)%nat -> exists c' : core, chan_readable fuel n c = (OOk, c') /\ ob (c_out c') = ob (c_out c) ++ concat bufs /\ ob_sealed (c_out c') = false /\ c_phase c' = c_phase c /\ c_qs c' = c_qs c /\ (forall k : N, k <> n -> alookup k (c_slots c') = alookup k (c_slots c)) /\ (exists s' : slot, alookup n (c_slots c') = Some s' /\ s_mail s' = []).
+Check C18_mailbox_fifo : forall (n : N) (bufs : list bytes) (fuel : nat) (c : core) (s : slot), n <> 0 -> alookup n (c_slots c) = Some s -> s_mail s = map MsgSend bufs -> s_mail_tx s = true -> ob_sealed (c_out c) = false -> (length bufs < fuel)%nat -> exists (c' : core) (taken rest : list bytes), chan_readable fuel n c = (OOk, c') /\ bufs = taken ++ rest /\ ob (c_out c') = ob (c_out c) ++ concat taken /\ ob_sealed (c_out c') = false /\ c_phase c' = c_phase c /\ c_qs c' = c_qs c /\ c_high c' = c_high c /\ (forall k : N, k <> n -> alookup k (c_slots c') = alookup k (c_slots c)) /\ (exists s' : slot, alookup n (c_slots c') = Some s' /\ s_mail s' = map MsgSend rest) /\ (rest <> [] -> c_need c' = true /\ c_high c < out_len c').
+Check C18_mailbox_fifo_below_mark : forall (n : N) (bufs : list bytes) (fuel : nat) (c : core) (s : slot), n <> 0 -> alookup n (c_slots c) = Some s -> s_mail s = map MsgSend bufs -> s_mail_tx s = true -> ob_sealed (c_out c) = false -> (length bufs < fuel)%nat -> N.of_nat (length (ob (c_out c) ++ concat bufs)) <= c_high c -> exists c' : core, chan_readable fuel n c = (OOk, c') /\ ob (c_out c') = ob (c_out c) ++ concat bufs /\ (exists s' : slot, alookup n (c_slots c') = Some s' /\ s_mail s' = []).
 Check C18_trace_conserves : forall (ops : list bop) (st : list N * outbuf * list N), (let '(wire, b, acc) := st in wire ++ ob b = acc) -> (fix ok (st0 : bytes * outbuf * bytes) (ops0 : list bop) {struct ops0} : Prop := match ops0 with | [] => True | o :: ops' => no_write_failure st0 o /\ ok (bstep st0 o) ops' end) st ops -> let '(wire', b', acc') := fold_left bstep ops st in wire' ++ ob b' = acc'.
 Check C18_wake_invariant : forall (mx bound high low : N) (ops : list wop), Forall (op_ok mx) ops -> J mx (wrun (winit bound high low) ops).
 Check C18_tail_leaves_wakeups : forall (mx : N) (w : wstate) (ch : N) (c : chan), J mx w -> w_pending w = [] -> let w' := snd (wtail w) in alookup ch (w_chans w') = Some c -> k_mail c <> [] -> w_listening w' = true -> k_queued c = true /\ k_ready c = true.
@@ -111,6 +116,7 @@ Print Assumptions C18_stays_throttled.
 Print Assumptions C18_resumes_at_low.
 Print Assumptions C18_write_interest.
 Print Assumptions C18_mailbox_fifo.
+Print Assumptions C18_mailbox_fifo_below_mark.
 Print Assumptions C18_trace_conserves.
 Print Assumptions C18_wake_invariant.
 Print Assumptions C18_tail_leaves_wakeups.
